@@ -119,7 +119,7 @@ Ltac fa := repeat match goal with
   | |- Forall _ _ => progress (unfold rp_inits, copy_default_eps, opt_client, client_locs, inst_locs; cbn)
   end.
 Ltac tab := cbn; repeat rewrite Nat.eqb_refl; cbn; repeat rewrite orb_true_r; cbn; try reflexivity.
-Ltac cases o := destruct o as [i stor opts|i sl|i sl t opts|i cfg opts|i c st t|i c st t|i c t|i stor q|st|i c k|i c|i c|i c|c k|sl|i c k r];
+Ltac cases o := destruct o as [i stor opts|i sl|i sl t opts|i cfg opts|i c st t|i c st t|i c t|i stor q|st|i c k|i c|i c|i c|c k|sl|f a|i stor cl k own|i c k r];
   try destruct q; try destruct k; try destruct c; try destruct st; cbn.
 
 Definition own_in (ids : list nat) (l : loc) : bool :=
@@ -245,6 +245,7 @@ Proof.
 Qed.
 
 (* ------------------------------------------------------------------ part 3 *)
+Definition accesses_none (o : op) : Prop := forall h, accesses o h = [].
 Lemma result_agree_deps o (P : loc -> Prop) h h' :
   agreeP P h h' -> (forall l, In l (obs_reads o) -> P l) -> result o h = result o h'.
 Proof.
@@ -319,6 +320,43 @@ Proof. intro H. split; [now apply separate_disjoint | now apply separate_disjoin
 
 Lemma handler_result i c k r h : result (HandlerReq i c k r) h = [S r].
 Proof. reflexivity. Qed.
+
+(* requests on ONE provider, by any number of clients: a request writes nothing but the
+   mutex-protected storage contents, and no request's result reads those *)
+Lemma T_request_writes_locked o :
+  is_prov_request o = true -> Forall (fun e => match e with EWrite l _ => locked l = true | EInit _ _ => False end) (effects o).
+Proof. cases o; intro H; try discriminate H; fa; tab; auto. Qed.
+
+Lemma T_request_obs_unlocked o :
+  is_prov_request o = true -> Forall (fun l => locked l = false) (obs_reads o).
+Proof. cases o; intro H; try discriminate H; fa; tab; auto. Qed.
+
+Lemma request_unlocked_unchanged o h :
+  is_prov_request o = true -> forall x, locked x = false -> apply o h x = h x.
+Proof.
+  intros Hr x Hx. apply apply_frame. intro Hw. unfold writes in Hw. apply in_map_iff in Hw as (e & He & Hin).
+  pose proof (proj1 (Forall_forall _ _) (T_request_writes_locked o Hr) e Hin) as Hl.
+  destruct e as [l s|l s]; cbn in *; [congruence | contradiction].
+Qed.
+
+Theorem requests_history_independent (l : list op) (probe : op) (h : heap) :
+  Forall (fun o => is_prov_request o = true) l -> is_prov_request probe = true ->
+  result probe (run_ops l h) = result probe h.
+Proof.
+  intros Hl Hp. apply (result_agree_deps probe (fun x => locked x = false)).
+  - revert h. induction Hl as [|o l Ho _ IH]; intros h x Hx; [reflexivity|].
+    unfold run_ops in *. cbn [fold_left]. rewrite IH by assumption. now apply request_unlocked_unchanged.
+  - intros x Hx. exact (proj1 (Forall_forall _ _) (T_request_obs_unlocked probe Hp) x Hx).
+Qed.
+
+Lemma client_request_result i stor cl k own l h :
+  Forall (fun o => is_prov_request o = true) l ->
+  result (ClientReq i stor cl k own) (run_ops l h) = [match k with KIntrospectOther => 0 | _ => if own then S cl else 0 end].
+Proof. reflexivity. Qed.
+
+(* package-level helpers are pure: no access at all, the same value after any history of any operations *)
+Lemma helper_pure f a : accesses_none (HelperCall f a) /\ forall (l : list op) h, result (HelperCall f a) (run_ops l h) = [1].
+Proof. split; [intro h|intros l h]; reflexivity. Qed.
 
 Lemma disjb_spec a b : disjb a b = true -> disjointL a b.
 Proof.
@@ -474,8 +512,9 @@ Definition ex_order : input :=
   IOrder ex_h0
     [(1, NewProvider 1 2 [PEndpoint EAuth 9]); (3, NewProvider 3 4 []); (5, NewRPOIDC 5 0 1 [RHTTPClient 1]);
      (5, RPCall 5 1 REndSession); (7, NewRS 7 (Some 1) false 2); (8, HandlerReq 5 1 HCodeExchange 0);
-     (9, HandlerReq 5 1 HCodeExchange 1)]
-    [(3, ProvReq 3 4 QDiscovery); (6, ClientCall 1 CDiscover); (7, RSIntrospect 7 1); (8, HandlerReq 5 1 HCodeExchange 0);
+     (9, HandlerReq 5 1 HCodeExchange 1); (10, ClientReq 3 4 4 KBearer true); (11, ClientReq 3 4 5 KBearer true);
+     (11, ClientReq 3 4 5 KCode false); (10, ClientReq 3 4 4 KRevoke true); (12, HelperCall 1 5)]
+    [(12, HelperCall 0 5); (10, ClientReq 3 4 4 KCode true); (11, ClientReq 3 4 5 KBearer false); (3, ProvReq 3 4 QDiscovery); (6, ClientCall 1 CDiscover); (7, RSIntrospect 7 1); (8, HandlerReq 5 1 HCodeExchange 0);
      (9, HandlerReq 5 1 HCodeExchange 1)].
 Example spec_sound_nonvacuous : wf ex_order = true /\ spec ex_order (model ex_order) = true.
 Proof. split; vm_compute; reflexivity. Qed.
